@@ -161,6 +161,50 @@ func checkMine(c mineCase) (h.Info, error) {
 
 var workers = map[int]*pow.Worker{}
 
+// cancelled calls: whatever Mine returns without error must still meet the target
+type cancelCase struct {
+	Data    h.B `json:"data"`
+	Workers int `json:"workers"`
+	K       int `json:"k"`        // target 3^k/len, k large enough not to be found at once
+	DelayUs int `json:"delay_us"` // -1 = cancelled before the call
+}
+
+func TestMineCancelled(t *testing.T) {
+	h.Run(t, h.Sub[cancelCase]{
+		Prop: "C11", Name: "mine-cancelled", N: 160,
+		Gen: func(t *rapid.T) cancelCase {
+			return cancelCase{Data: h.Bytes(t, "data", 0, 40), Workers: h.OneOf(t, "workers", 1, 2, 4, 8), K: rapid.IntRange(12, 40).Draw(t, "k"), DelayUs: rapid.IntRange(-1, 3000).Draw(t, "delay")}
+		},
+		Check: func(c cancelCase) (h.Info, error) {
+			target := math.Pow(3, float64(c.K)) / float64(len(c.Data)+8)
+			ctx, cancel := context.WithCancel(context.Background())
+			if c.DelayUs < 0 {
+				cancel()
+			} else {
+				go func() { time.Sleep(time.Duration(c.DelayUs) * time.Microsecond); cancel() }()
+			}
+			defer cancel()
+			w, ok := workers[c.Workers]
+			if !ok {
+				w = pow.New(c.Workers)
+				workers[c.Workers] = w
+			}
+			nonce, err := w.Mine(ctx, append([]byte{}, c.Data...), target)
+			info := h.Info{Class: "cancelled/error", NT: true}
+			if err != nil {
+				return info, nil
+			}
+			info.Class = "cancelled/nonce"
+			if got := pow.Score(msgOf(c.Data, nonce)); !(got >= target) {
+				return info, fmt.Errorf("Mine(data=%x, target=3^%d/len, workers=%d) with a context cancelled after %d us returned nonce %d WITHOUT error although its Score %v is below the target %v", []byte(c.Data), c.K, c.Workers, c.DelayUs, nonce, got, target)
+			}
+			return info, nil
+		},
+		Require: []string{"cancelled/error"},
+		Rule:    "targets needing 12..40 zero trits with the context cancelled before the call or after 0..3 ms: a nonce returned without error must still satisfy Score >= target (an error is fine); all non-trivial; distinct by case",
+	})
+}
+
 // boundary targets: fl(3^k/len) and its neighbours
 func boundary(k int, ell int) float64 {
 	r := new(big.Rat).SetFrac(ref.Pow3(k), big.NewInt(int64(ell)))
@@ -174,7 +218,12 @@ func genMine(t *rapid.T) mineCase {
 	case 1:
 		c.Data = h.BytesN(t, "data1", h.OneOf(t, "dl", 0, 1, 19, 64))
 	case 2: // long data: several BLAKE2b blocks
-		c.Data = h.BytesN(t, "datalong", h.OneOf(t, "dll", 120, 128, 129, 1000, 4096))
+		n := h.OneOf(t, "dll", 120, 128, 129, 1000, 4096, 65535, 65536, 65537, 70000, 131073)
+		fill := rapid.Byte().Draw(t, "dfill")
+		c.Data = make(h.B, n)
+		for i := range c.Data {
+			c.Data[i] = fill + byte(i*7)
+		}
 	}
 	ell := len(c.Data) + 8
 	k := rapid.IntRange(0, 7).Draw(t, "k")
